@@ -104,14 +104,29 @@ Theorem compare_matches_wire_order :
 Proof. exact (conj comp_cmp_wire name_cmp_wire). Qed.
 Print Assumptions compare_matches_wire_order.
 
-(* The bytes fed to the hasher determine the name (type, value length, value per component): equal hashes of
-   different names can only come from the 64-bit hash function itself, never from the input construction. *)
+(* Hash input, for ANY layout `lay` of what HashInto feeds per component: if the streams of the components considered are
+   non-empty and no stream is a prefix of the stream of a different component, then the concatenated streams determine
+   the name — equal hashes of different names can then only come from the 64-bit hash function, never from the input
+   construction.  The same in terms of the decidable oracle evaluated on the implementation's recorded streams. *)
+Theorem prefix_free_components_injective_names : forall (lay : comp -> bytes) (P : comp -> Prop),
+  layout_prefix_free lay P -> layout_nonempty lay P ->
+  forall a b, Forall P a -> Forall P b -> concat (map lay a) = concat (map lay b) -> a = b.
+Proof. exact Wire.prefix_free_components_injective_names. Qed.
+Print Assumptions prefix_free_components_injective_names.
+
+Theorem layout_oracle_implies_injective : forall (lay : comp -> bytes) (P : comp -> Prop),
+  (forall c d, P c -> P d -> layout_pair_ok c d (lay c) (lay d) = true) ->
+  forall a b, Forall P a -> Forall P b -> concat (map lay a) = concat (map lay b) -> a = b.
+Proof. exact layout_ok_names_injective. Qed.
+Print Assumptions layout_oracle_implies_injective.
+
+(* Instance: the layout modelled from the current code (type, 8-byte length, value) is such a layout and passes the oracle *)
 Theorem hash_input_injective : forall a b : name, Forall comp_wf a -> Forall comp_wf b ->
   name_hash_input a = name_hash_input b -> a = b.
 Proof. exact name_hash_input_inj. Qed.
 Print Assumptions hash_input_injective.
 
-(* The layout the harness compares byte for byte with what the real HashInto writes into a recording hash.Hash:
+(* The modelled instance written out (a recorded stream that differs from it is reported as a NOTE, not a violation):
    16 header bytes (8-byte big-endian type, 8-byte big-endian value length) followed by the value. *)
 Theorem hash_input_layout : forall c,
   comp_hash_input c = comp_hash_header (ctyp c) (N.of_nat (length (cval c))) ++ cval c /\
@@ -135,10 +150,11 @@ Theorem oracle_sound :
   (forall a b, name_wf a -> name_wf b ->
      pair_ok (name_cmp a b) (name_eqb a b) (is_prefix a b) (is_prefix b a) (name_bytes a) (name_bytes b) true = true) /\
   (forall c d, comp_wf c -> comp_wf d -> comp_ok (comp_cmp c d) (comp_eqb c d) (comp_enc c) (comp_enc d) = true) /\
+  (forall c d, comp_wf c -> comp_wf d -> layout_pair_ok c d (comp_hash_input c) (comp_hash_input d) = true) /\
   (forall n, name_wf n -> brt_ok n (name_from_bytes (name_bytes n)) = true) /\
   (forall n, rt_ok n (name_from_str (name_to_str n)) = true) /\
   (forall c, crt_ok c (comp_from_str (comp_to_str c)) (comp_from_str (comp_to_canon c)) = true).
-Proof. exact (conj model_triple_ok (conj model_pair_ok (conj model_comp_ok (conj model_brt_ok (conj model_rt_ok model_crt_ok))))). Qed.
+Proof. exact (conj model_triple_ok (conj model_pair_ok (conj model_comp_ok (conj model_layout_pair_ok (conj model_brt_ok (conj model_rt_ok model_crt_ok)))))). Qed.
 Print Assumptions oracle_sound.
 
 (* The runner executes linear-time variants of the three parsers (List.rev is quadratic); they are the same functions. *)
